@@ -3,93 +3,6 @@ import RxnModel.Model.Reorder
 namespace Rxn.Reorder
 variable {α ρ : Type}
 
-theorem drainLoop_spec (f : List α → List ρ) (hist : List (List α)) (next : Nat) (hlen : hist.length = next) :
-    ∀ (res d : Nat) (items : Nat → Option (List ρ)),
-      res = next - d → d ≤ next →
-      (∀ k x, items k = some x → d ≤ k ∧ ∃ e, hist[k]? = some e ∧ x = f e) →
-      d ≤ (drainLoop items res d).2.2.2 ∧ (drainLoop items res d).2.2.2 ≤ next ∧
-      (drainLoop items res d).2.2.1 = next - (drainLoop items res d).2.2.2 ∧
-      (drainLoop items res d).1 = (((hist.take (drainLoop items res d).2.2.2).drop d).map f).flatten ∧
-      (∀ k, (drainLoop items res d).2.1 k =
-          if d ≤ k ∧ k < (drainLoop items res d).2.2.2 then none else items k) ∧
-      (drainLoop items res d).2.1 (drainLoop items res d).2.2.2 = none ∧
-      (∀ k, d ≤ k → k < (drainLoop items res d).2.2.2 → items k ≠ none) := by
-  intro res
-  induction res with
-  | zero =>
-    intro d items hres hd hitm
-    have hdn : d = next := by omega
-    simp only [drainLoop]
-    refine ⟨Nat.le_refl _, hd, by omega, ?_, ?_, ?_, by intro k h1 h2; omega⟩
-    · simp
-    · intro k; have : ¬ (d ≤ k ∧ k < d) := by omega
-      simp [this]
-    · cases hi : items d with
-      | none => rfl
-      | some x =>
-        obtain ⟨_, e, he, _⟩ := hitm d x hi
-        have : d < hist.length := by
-          rcases List.getElem?_eq_some_iff.mp he with ⟨h, _⟩; exact h
-        omega
-  | succ r ih =>
-    intro d items hres hd hitm
-    cases hi : items d with
-    | none =>
-      have hdl : drainLoop items (r + 1) d = ([], items, r + 1, d) := by simp [drainLoop, hi]
-      rw [hdl]
-      refine ⟨Nat.le_refl _, hd, by omega, ?_, ?_, hi, by intro k h1 h2; dsimp only at h2; omega⟩
-      · simp
-      · intro k; have : ¬ (d ≤ k ∧ k < d) := by omega
-        simp [this]
-    | some x =>
-      obtain ⟨_, e, he, hx⟩ := hitm d x hi
-      have hdl : d < hist.length := by
-        rcases List.getElem?_eq_some_iff.mp he with ⟨h, _⟩; exact h
-      have hitm' : ∀ k y, (fun k => if k = d then none else items k) k = some y →
-          d + 1 ≤ k ∧ ∃ e, hist[k]? = some e ∧ y = f e := by
-        intro k y hk
-        by_cases hkd : k = d
-        · simp [hkd] at hk
-        · simp [hkd] at hk
-          obtain ⟨h1, h2⟩ := hitm k y hk
-          exact ⟨by omega, h2⟩
-      obtain ⟨i1, i2, i3, i4, i5, i6, i7⟩ := ih (d + 1) (fun k => if k = d then none else items k) (by omega) (by omega) hitm'
-      have hdl : drainLoop items (r + 1) d =
-          (x ++ (drainLoop (fun k => if k = d then none else items k) r (d + 1)).1,
-           (drainLoop (fun k => if k = d then none else items k) r (d + 1)).2) := by simp [drainLoop, hi]
-      rw [hdl]
-      dsimp only
-      refine ⟨by omega, i2, i3, ?_, ?_, i6, ?_⟩
-      · rw [i4]
-        have hlt : d < (hist.take (drainLoop (fun k => if k = d then none else items k) r (d + 1)).2.2.2).length := by
-          simp; omega
-        rw [List.drop_eq_getElem_cons hlt]
-        simp only [List.map_cons, List.flatten_cons]
-        congr 1
-        rw [hx]
-        congr 1
-        have := List.getElem?_eq_some_iff.mp he
-        obtain ⟨h, hh⟩ := this
-        simp [hh]
-      · intro k
-        rw [i5 k]
-        by_cases hkd : k = d
-        · subst hkd
-          have : ¬ (k + 1 ≤ k ∧ k < (drainLoop (fun j => if j = k then none else items j) r (k + 1)).2.2.2) := by omega
-          simp [this]
-          omega
-        · by_cases h1 : d + 1 ≤ k ∧ k < (drainLoop (fun k => if k = d then none else items k) r (d + 1)).2.2.2
-          · have : d ≤ k ∧ k < (drainLoop (fun k => if k = d then none else items k) r (d + 1)).2.2.2 := by omega
-            simp [h1, this]
-          · have : ¬ (d ≤ k ∧ k < (drainLoop (fun k => if k = d then none else items k) r (d + 1)).2.2.2) := by omega
-            simp [h1, this, hkd]
-      · intro k h1 h2
-        by_cases hkd : k = d
-        · subst hkd; simp [hi]
-        · have := i7 k (by omega) h2
-          simpa [hkd] using this
-
-
 def held : Pc α → List α
   | .mid evs => evs
   | _ => []
@@ -97,23 +10,35 @@ def held : Pc α → List α
 theorem held_of_not_holds (p : Pc α) (h : p.holds = false) : held p = [] := by
   cases p <;> simp_all [held, Pc.holds]
 
-structure BufInv (f : List α → List ρ) (next d rs cp : Nat) (items : Nat → Option (List ρ))
-    (inflight : List (Nat × List α)) (drainers : Nat) (outp : List ρ) (hist : List (List α)) : Prop where
+/-- what the goroutine inside `Drain` still has to send of the batch it dequeued -/
+def cur : Option (List ρ) → List ρ
+  | some l => l
+  | none => []
+
+/-- buffer part of the invariant. `hist` lists the reserved batches with their sequence numbers in reservation
+order, `G` is the result of the fetch for a batch, `outp` what the consumer has received. -/
+structure BufInv (G : Nat × List α → List ρ) (next d rs cp : Nat) (items : Nat → Option (List ρ))
+    (inflight : List (Nat × List α)) (drainers : Nat) (drainer : Option (List ρ)) (oc : Nat) (outq : List ρ)
+    (outp : List ρ) (hist : List (Nat × List α)) : Prop where
   len : hist.length = next
+  seqs : ∀ (k : Nat) (p : Nat × List α), hist[k]? = some p → p.1 = k
   dle : d ≤ next
   hres : rs = next - d
   capb : rs ≤ cp
-  out : outp = ((hist.take d).map f).flatten
-  infl : ∀ k e, (k, e) ∈ inflight → d ≤ k ∧ hist[k]? = some e ∧ items k = none
+  out : outp ++ outq ++ cur drainer = ((hist.take d).map G).flatten
+  ocapb : outq.length ≤ oc
+  infl : ∀ k e, (k, e) ∈ inflight → d ≤ k ∧ hist[k]? = some (k, e) ∧ items k = none
   nodup : (inflight.map Prod.fst).Nodup
-  itm : ∀ k x, items k = some x → d ≤ k ∧ ∃ e, hist[k]? = some e ∧ x = f e
+  itm : ∀ k x, items k = some x → d ≤ k ∧ ∃ p, hist[k]? = some p ∧ x = G p
   cover : ∀ k, d ≤ k → k < next → items k ≠ none ∨ ∃ e, (k, e) ∈ inflight
   live : items d ≠ none → 0 < drainers
+  dact : drainer ≠ none → 0 < drainers
 
-structure Inv (f : List α → List ρ) (r : Run α ρ) (hist : List (List α)) : Prop where
-  buf : BufInv f r.st.nextSeq r.st.drainedSeq r.st.reserved r.st.cap r.st.items r.st.inflight r.st.drainers r.out hist
+structure Inv (f : List α → List ρ) (fails : Nat → Bool) (r : Run α ρ) (hist : List (Nat × List α)) : Prop where
+  buf : BufInv (resultOf f fails) r.st.nextSeq r.st.drainedSeq r.st.reserved r.st.cap r.st.items r.st.inflight
+    r.st.drainers r.st.drainer r.st.ocap r.st.outq r.out hist
   mutex : ¬ (r.st.pp.holds = true ∧ r.st.tp.holds = true)
-  ins : r.ins = hist.flatten ++ held r.st.pp ++ held r.st.tp ++ r.st.b.batch
+  ins : r.ins = (hist.map Prod.snd).flatten ++ held r.st.pp ++ held r.st.tp ++ r.st.b.batch
 
 theorem add_batch' (s : Batcher.St α) (x : α) : (Batcher.add s x).batch = s.batch ++ [x] := by
   unfold Batcher.add; split <;> rfl
@@ -133,14 +58,32 @@ theorem lookupSeq_mem (seq : Nat) (l : List (Nat × List α)) (e : List α) (h :
     · next hk => simp at h; subst hk; subst h; simp
     · exact List.mem_cons_of_mem _ (ih h)
 
+theorem mem_lookupSeq (seq : Nat) (l : List (Nat × List α)) (e : List α) (h : (seq, e) ∈ l) :
+    lookupSeq seq l ≠ none := by
+  induction l with
+  | nil => simp at h
+  | cons p rest ih =>
+    obtain ⟨k, e'⟩ := p
+    simp only [lookupSeq]
+    split
+    · simp
+    · next hk =>
+      rcases List.mem_cons.mp h with h1 | h1
+      · simp at h1; exact absurd h1.1.symm hk
+      · exact ih h1
 
 theorem getElem?_lt_of_some {β : Type} (l : List β) (k : Nat) (e : β) (h : l[k]? = some e) : k < l.length :=
   (List.getElem?_eq_some_iff.mp h).1
 
-theorem BufInv.reserve {f : List α → List ρ} {next d rs cp : Nat} {items : Nat → Option (List ρ)}
-    {inflight : List (Nat × List α)} {drainers : Nat} {outp : List ρ} {hist : List (List α)}
-    (hb : BufInv f next d rs cp items inflight drainers outp hist) (evs : List α) (hlt : rs < cp) :
-    BufInv f (next + 1) d (rs + 1) cp items (inflight ++ [(next, evs)]) drainers outp (hist ++ [evs]) := by
+section buf
+variable {G : Nat × List α → List ρ} {next d rs cp : Nat} {items : Nat → Option (List ρ)}
+  {inflight : List (Nat × List α)} {drainers : Nat} {drainer : Option (List ρ)} {oc : Nat} {outq outp : List ρ}
+  {hist : List (Nat × List α)}
+
+theorem BufInv.reserve (hb : BufInv G next d rs cp items inflight drainers drainer oc outq outp hist)
+    (evs : List α) (hlt : rs < cp) :
+    BufInv G (next + 1) d (rs + 1) cp items (inflight ++ [(next, evs)]) drainers drainer oc outq outp
+      (hist ++ [(next, evs)]) := by
   have hnone : items next = none := by
     cases hi : items next with
     | none => rfl
@@ -148,7 +91,17 @@ theorem BufInv.reserve {f : List α → List ρ} {next d rs cp : Nat} {items : N
       obtain ⟨_, e, he, _⟩ := hb.itm next x hi
       have := getElem?_lt_of_some _ _ _ he
       have := hb.len; omega
-  refine ⟨by simp [hb.len], by have := hb.dle; omega, by have := hb.hres; have := hb.dle; omega, by omega, ?_, ?_, ?_, ?_, ?_, hb.live⟩
+  refine ⟨by simp [hb.len], ?_, by have := hb.dle; omega, by have := hb.hres; have := hb.dle; omega, by omega, ?_,
+    hb.ocapb, ?_, ?_, ?_, ?_, hb.live, hb.dact⟩
+  · intro k p hk
+    by_cases hlt' : k < hist.length
+    · rw [List.getElem?_append_left hlt'] at hk; exact hb.seqs k p hk
+    · have hk' := getElem?_lt_of_some _ _ _ hk
+      simp at hk'
+      have : k = hist.length := by omega
+      subst this
+      simp at hk
+      rw [← hk]; exact hb.len.symm
   · rw [List.take_append_of_le_length (by rw [hb.len]; exact hb.dle)]; exact hb.out
   · intro k e hke
     rcases List.mem_append.mp hke with h | h
@@ -183,15 +136,13 @@ theorem BufInv.reserve {f : List α → List ρ} {next d rs cp : Nat} {items : N
       subst this
       exact Or.inr ⟨evs, by simp⟩
 
-theorem BufInv.fetchDone {f : List α → List ρ} {next d rs cp : Nat} {items : Nat → Option (List ρ)}
-    {inflight : List (Nat × List α)} {drainers : Nat} {outp : List ρ} {hist : List (List α)}
-    (hb : BufInv f next d rs cp items inflight drainers outp hist) (seq : Nat) (evs : List α)
-    (hl : lookupSeq seq inflight = some evs) :
-    BufInv f next d rs cp (fun k => if k = seq then some (f evs) else items k)
-      (inflight.filter (fun p => p.1 != seq)) (drainers + 1) outp hist := by
+theorem BufInv.fetchDone (hb : BufInv G next d rs cp items inflight drainers drainer oc outq outp hist)
+    (seq : Nat) (evs : List α) (hl : lookupSeq seq inflight = some evs) :
+    BufInv G next d rs cp (fun k => if k = seq then some (G (seq, evs)) else items k)
+      (inflight.filter (fun p => p.1 != seq)) (drainers + 1) drainer oc outq outp hist := by
   have hmem := lookupSeq_mem seq inflight evs hl
   obtain ⟨m1, m2, m3⟩ := hb.infl seq evs hmem
-  refine ⟨hb.len, hb.dle, hb.hres, hb.capb, hb.out, ?_, ?_, ?_, ?_, by intro _; omega⟩
+  refine ⟨hb.len, hb.seqs, hb.dle, hb.hres, hb.capb, hb.out, hb.ocapb, ?_, ?_, ?_, ?_, by intro _; omega, by intro _; omega⟩
   · intro k e hke
     obtain ⟨h1, h2⟩ := List.mem_filter.mp hke
     simp at h2
@@ -202,7 +153,7 @@ theorem BufInv.fetchDone {f : List α → List ρ} {next d rs cp : Nat} {items :
     by_cases hks : k = seq
     · subst hks
       simp at hk
-      exact ⟨m1, evs, m2, hk.symm⟩
+      exact ⟨m1, (k, evs), m2, hk.symm⟩
     · simp [hks] at hk
       exact hb.itm k x hk
   · intro k h1 h2
@@ -212,42 +163,70 @@ theorem BufInv.fetchDone {f : List α → List ρ} {next d rs cp : Nat} {items :
       · left; simpa [hks] using h
       · right; exact ⟨e, List.mem_filter.mpr ⟨he, by simpa using hks⟩⟩
 
-theorem BufInv.drain {f : List α → List ρ} {next d rs cp : Nat} {items : Nat → Option (List ρ)}
-    {inflight : List (Nat × List α)} {drainers : Nat} {outp : List ρ} {hist : List (List α)}
-    (hb : BufInv f next d rs cp items inflight (drainers + 1) outp hist) :
-    BufInv f next (drainLoop items rs d).2.2.2 (drainLoop items rs d).2.2.1 cp (drainLoop items rs d).2.1
-      inflight drainers (outp ++ (drainLoop items rs d).1) hist := by
-  obtain ⟨s1, s2, s3, s4, s5, s6, s7⟩ := drainLoop_spec f hist next hb.len rs d items hb.hres hb.dle hb.itm
-  refine ⟨hb.len, s2, s3, by have := hb.hres; have := hb.capb; omega, ?_, ?_, hb.nodup, ?_, ?_, by intro h; exact absurd s6 h⟩
-  · rw [s4, hb.out, ← List.flatten_append, ← List.map_append]
-    congr 2
-    have h1 : List.take d hist = List.take d (List.take (drainLoop items rs d).2.2.2 hist) := by
-      rw [List.take_take]; congr 1; omega
-    rw [h1, List.take_append_drop]
+theorem BufInv.drainStart (hb : BufInv G next d rs cp items inflight (drainers + 1) none oc outq outp hist) :
+    BufInv G next d rs cp items inflight (drainers + 1) (some []) oc outq outp hist :=
+  ⟨hb.len, hb.seqs, hb.dle, hb.hres, hb.capb, by simpa [cur] using hb.out, hb.ocapb, hb.infl, hb.nodup, hb.itm, hb.cover,
+    by intro _; omega, by intro _; omega⟩
+
+/-- the `Drain` loop dequeues the next sequence number -/
+theorem BufInv.drainTake (hb : BufInv G next d (r + 1) cp items inflight drainers (some []) oc outq outp hist)
+    (x : List ρ) (hx : items d = some x) :
+    BufInv G next (d + 1) r cp (fun k => if k = d then none else items k) inflight drainers (some x) oc outq outp hist := by
+  obtain ⟨_, p, hp, hxp⟩ := hb.itm d x hx
+  have hdl : d < hist.length := getElem?_lt_of_some _ _ _ hp
+  have hpos := hb.dact (by simp)
+  refine ⟨hb.len, hb.seqs, by have := hb.len; omega, by have := hb.hres; omega, by have := hb.capb; omega, ?_, hb.ocapb,
+    ?_, hb.nodup, ?_, ?_, by intro _; exact hpos, by intro _; exact hpos⟩
+  · have h0 := hb.out
+    simp only [cur, List.append_nil] at h0
+    obtain ⟨hlt, hget⟩ := List.getElem?_eq_some_iff.mp hp
+    rw [List.take_succ_eq_append_getElem hlt, List.map_append, List.flatten_append, ← h0]
+    simp [cur, hxp, hget]
   · intro k e hke
     obtain ⟨a, b, c⟩ := hb.infl k e hke
-    have hk : (drainLoop items rs d).2.2.2 ≤ k := by
-      by_cases hlt : k < (drainLoop items rs d).2.2.2
-      · exact absurd c (s7 k a hlt)
-      · omega
-    refine ⟨hk, b, ?_⟩
-    rw [s5 k]; split <;> simp [c]
-  · intro k x hk
-    rw [s5 k] at hk
-    split at hk
-    · simp at hk
-    · next hn =>
-      obtain ⟨a, b⟩ := hb.itm k x hk
+    have hkd : k ≠ d := by intro h; subst h; rw [hx] at c; simp at c
+    exact ⟨by omega, b, by simp [hkd, c]⟩
+  · intro k y hk
+    by_cases hkd : k = d
+    · simp [hkd] at hk
+    · simp [hkd] at hk
+      obtain ⟨a, b⟩ := hb.itm k y hk
       exact ⟨by omega, b⟩
   · intro k h1 h2
-    have hn : ¬ (d ≤ k ∧ k < (drainLoop items rs d).2.2.2) := by omega
+    have hkd : k ≠ d := by omega
     rcases hb.cover k (by omega) h2 with h | h
-    · left; rw [s5 k]; simpa [hn] using h
+    · left; simpa [hkd] using h
     · exact Or.inr h
 
-theorem inv_step (f : List α → List ρ) (r : Run α ρ) (hist : List (List α)) (h : Inv f r hist)
-    (a : Act α) (s' : St α ρ) (o : List ρ) (hs : step f true r.st a = some (s', o)) :
-    ∃ hist', Inv f { st := s', ins := r.ins ++ inputOf a, out := r.out ++ o } hist' := by
+/-- the `Drain` loop finds nothing more and releases the mutex -/
+theorem BufInv.drainEnd (hb : BufInv G next d rs cp items inflight (n + 1) (some []) oc outq outp hist)
+    (hx : items d = none) :
+    BufInv G next d rs cp items inflight n none oc outq outp hist :=
+  ⟨hb.len, hb.seqs, hb.dle, hb.hres, hb.capb, by simpa [cur] using hb.out, hb.ocapb, hb.infl, hb.nodup, hb.itm, hb.cover,
+    by intro h; exact absurd hx h, by intro h; exact absurd rfl h⟩
+
+theorem BufInv.send (hb : BufInv G next d rs cp items inflight drainers (some (x :: rest)) oc outq outp hist)
+    (hroom : outq.length < oc) :
+    BufInv G next d rs cp items inflight drainers (some rest) oc (outq ++ [x]) outp hist :=
+  ⟨hb.len, hb.seqs, hb.dle, hb.hres, hb.capb, by have := hb.out; simpa [cur, List.append_assoc] using this,
+    by simp; omega, hb.infl, hb.nodup, hb.itm, hb.cover, hb.live, by intro _; exact hb.dact (by simp)⟩
+
+theorem BufInv.recvQ (hb : BufInv G next d rs cp items inflight drainers drainer oc (x :: q) outp hist) :
+    BufInv G next d rs cp items inflight drainers drainer oc q (outp ++ [x]) hist :=
+  ⟨hb.len, hb.seqs, hb.dle, hb.hres, hb.capb, by have := hb.out; simpa [List.append_assoc] using this,
+    by have := hb.ocapb; simp at this; omega, hb.infl, hb.nodup, hb.itm, hb.cover, hb.live, hb.dact⟩
+
+theorem BufInv.recvDirect (hb : BufInv G next d rs cp items inflight drainers (some (x :: rest)) oc [] outp hist) :
+    BufInv G next d rs cp items inflight drainers (some rest) oc [] (outp ++ [x]) hist :=
+  ⟨hb.len, hb.seqs, hb.dle, hb.hres, hb.capb, by have := hb.out; simpa [cur, List.append_assoc] using this,
+    hb.ocapb, hb.infl, hb.nodup, hb.itm, hb.cover, hb.live, by intro _; exact hb.dact (by simp)⟩
+
+end buf
+
+theorem inv_step (f : List α → List ρ) (fails : Nat → Bool) (r : Run α ρ) (hist : List (Nat × List α))
+    (h : Inv f fails r hist)
+    (a : Act α) (s' : St α ρ) (o : List ρ) (hs : step f fails true r.st a = some (s', o)) :
+    ∃ hist', Inv f fails { st := s', ins := r.ins ++ inputOf a, out := r.out ++ o } hist' := by
   obtain ⟨hb, hm, hi⟩ := h
   cases a with
   | pAdd x =>
@@ -340,7 +319,6 @@ theorem inv_step (f : List α → List ρ) (r : Run α ρ) (hist : List (List α
     cases t with
     | prod =>
       simp only [pc, setPc] at hs
-      have hnt : r.st.tp.holds = false → held r.st.tp = [] := held_of_not_holds _
       split at hs
       · next hp =>
         simp at hs
@@ -356,7 +334,7 @@ theorem inv_step (f : List α → List ρ) (r : Run α ρ) (hist : List (List α
           · rfl
           · exact absurd ⟨by simp [hp, Pc.holds], ht⟩ hm
         have ht0 := held_of_not_holds _ hnt
-        refine ⟨hist ++ [e :: es], ⟨by simpa using hb.reserve (e :: es) hlt, by simp [Pc.holds], ?_⟩⟩
+        refine ⟨hist ++ [(r.st.nextSeq, e :: es)], ⟨by simpa using hb.reserve (e :: es) hlt, by simp [Pc.holds], ?_⟩⟩
         simp only [inputOf, List.append_nil, hi, hp, ht0]
         simp [held]
       · simp at hs
@@ -377,27 +355,66 @@ theorem inv_step (f : List α → List ρ) (r : Run α ρ) (hist : List (List α
           · rfl
           · exact absurd ⟨ht, by simp [hp, Pc.holds]⟩ hm
         have ht0 := held_of_not_holds _ hnt
-        refine ⟨hist ++ [e :: es], ⟨by simpa using hb.reserve (e :: es) hlt, by simp [Pc.holds], ?_⟩⟩
+        refine ⟨hist ++ [(r.st.nextSeq, e :: es)], ⟨by simpa using hb.reserve (e :: es) hlt, by simp [Pc.holds], ?_⟩⟩
         simp only [inputOf, List.append_nil, hi, hp, ht0]
         simp [held]
       · simp at hs
   | fetchDone seq =>
     simp only [step] at hs
     split at hs <;> try (simp at hs)
-    next evs hl =>
+    next evs hd hl =>
     obtain ⟨rfl, rfl⟩ := hs
     exact ⟨hist, ⟨by simpa using hb.fetchDone seq evs hl, hm, by simpa [inputOf] using hi⟩⟩
-  | drain =>
+  | drainStart =>
     simp only [step] at hs
     split at hs <;> try (simp at hs)
-    next n hn =>
+    next n hd hn =>
     obtain ⟨rfl, rfl⟩ := hs
-    rw [hn] at hb
-    exact ⟨hist, ⟨hb.drain, hm, by simpa [inputOf] using hi⟩⟩
+    rw [hd, hn] at hb
+    exact ⟨hist, ⟨by simpa [hn] using hb.drainStart, hm, by simpa [inputOf] using hi⟩⟩
+  | drainNext =>
+    simp only [step] at hs
+    split at hs <;> try (simp at hs)
+    next hd =>
+    split at hs
+    · next x hx =>
+      split at hs <;> try (simp at hs)
+      next rr hr =>
+      obtain ⟨rfl, rfl⟩ := hs
+      rw [hd, hr] at hb
+      exact ⟨hist, ⟨by simpa using hb.drainTake x hx, hm, by simpa [inputOf] using hi⟩⟩
+    · next hx =>
+      split at hs <;> try (simp at hs)
+      next n hn =>
+      obtain ⟨rfl, rfl⟩ := hs
+      rw [hd, hn] at hb
+      exact ⟨hist, ⟨by simpa using hb.drainEnd hx, hm, by simpa [inputOf] using hi⟩⟩
+  | send =>
+    simp only [step] at hs
+    split at hs <;> try (simp at hs)
+    next x rest hd =>
+    obtain ⟨hroom, rfl, rfl⟩ := hs
+    rw [hd] at hb
+    exact ⟨hist, ⟨by simpa using hb.send hroom, hm, by simpa [inputOf] using hi⟩⟩
+  | recv =>
+    simp only [step] at hs
+    split at hs
+    · next x q hq =>
+      simp at hs
+      obtain ⟨rfl, rfl⟩ := hs
+      rw [hq] at hb
+      exact ⟨hist, ⟨by simpa using hb.recvQ, hm, by simpa [inputOf] using hi⟩⟩
+    · next hq =>
+      split at hs <;> try (simp at hs)
+      next x rest hoc hd =>
+      obtain ⟨rfl, rfl⟩ := hs
+      rw [hq, hd] at hb
+      exact ⟨hist, ⟨by simpa [hq] using hb.recvDirect, hm, by simpa [inputOf] using hi⟩⟩
 
-/-- the inductive invariant holds in every reachable state, for every schedule -/
-theorem reorder_invariant {α ρ : Type} (f : List α → List ρ) (as : List (Act α)) :
-    ∀ (r r' : Run α ρ) (hist : List (List α)), Inv f r hist → exec f true r as = some r' → ∃ hist', Inv f r' hist' := by
+/-- the inductive invariant holds in every reachable state, for every schedule and every fetch outcome -/
+theorem reorder_invariant (f : List α → List ρ) (fails : Nat → Bool) (as : List (Act α)) :
+    ∀ (r r' : Run α ρ) (hist : List (Nat × List α)), Inv f fails r hist → exec f fails true r as = some r' →
+      ∃ hist', Inv f fails r' hist' := by
   induction as with
   | nil => intro r r' hist h he; simp [exec] at he; subst he; exact ⟨hist, h⟩
   | cons a as ih =>
@@ -406,22 +423,24 @@ theorem reorder_invariant {α ρ : Type} (f : List α → List ρ) (as : List (A
     split at he
     · simp at he
     · next s' o hs =>
-      obtain ⟨hist', h'⟩ := inv_step f r hist h a s' o hs
+      obtain ⟨hist', h'⟩ := inv_step f fails r hist h a s' o hs
       exact ih _ r' hist' h' he
 
-theorem reorder_init_inv {α ρ : Type} (f : List α → List ρ) (maxSize : Nat) (hasDelay : Bool) (bufferSize : Nat) :
-    Inv f ({ st := init maxSize hasDelay bufferSize } : Run α ρ) [] := by
-  refine ⟨⟨rfl, Nat.le_refl _, rfl, Nat.zero_le _, rfl, ?_, ?_, ?_, ?_, ?_⟩, ?_, ?_⟩
+theorem reorder_init_inv (f : List α → List ρ) (fails : Nat → Bool) (maxSize : Nat) (hasDelay : Bool) (bufferSize : Nat) :
+    Inv f fails ({ st := init maxSize hasDelay bufferSize } : Run α ρ) [] := by
+  refine ⟨⟨rfl, ?_, Nat.le_refl _, rfl, Nat.zero_le _, rfl, Nat.zero_le _, ?_, ?_, ?_, ?_, ?_, ?_⟩, ?_, ?_⟩
+  · intro k p h; simp at h
   · intro k e h; simp [init] at h
   · simp [init]
   · intro k x h; simp [init] at h
   · intro k h1 h2; simp [init] at h2
   · intro h; simp [init] at h
+  · intro h; simp [init] at h
   · simp [init, Pc.holds]
   · simp [init, held, Batcher.new]
 
-theorem exec_ins {α ρ : Type} (f : List α → List ρ) (b : Bool) (as : List (Act α)) :
-    ∀ (r r' : Run α ρ), exec f b r as = some r' → r'.ins = r.ins ++ inputs as := by
+theorem exec_ins (f : List α → List ρ) (fails : Nat → Bool) (b : Bool) (as : List (Act α)) :
+    ∀ (r r' : Run α ρ), exec f fails b r as = some r' → r'.ins = r.ins ++ inputs as := by
   induction as with
   | nil => intro r r' he; simp [exec] at he; subst he; simp [inputs]
   | cons a as ih =>
